@@ -140,7 +140,9 @@ def ident_strategy(ident, profile="mixed", tail=False):
 def plan_decode(tier, shard, nshards):
     ids = gen.all_idents()[shard::nshards]
     n = 40 if tier == "quick" else 600
-    out = [(i, ident_strategy(i), n) for i in ids]
+    # identities with text fields or nested groups have more shapes (alignment of the text, empty inner groups ...)
+    rich = {"1029", "1300", "1301", "1302", "1059", "1065", "4076_201"} | {f"4076_{c:02d}{k}" for c in range(2, 13, 2) for k in (5, 6)}
+    out = [(i, ident_strategy(i), n * 4 if i in rich else n) for i in ids]
     # every counter at the largest value that fits 1023 bytes, for every identity, on every run
     out += [(i + "/max", ident_strategy(i, "max"), 2 if tier == "quick" else 20) for i in ids]
     if "1029" in ids:
